@@ -28,27 +28,36 @@ def shape (e : Eval) : String :=
   let res := if (match e.model with | .accept st => st.resumed | _ => false) then "+resumed" else ""
   s!"v{vs}{hrr}{kx}{res}"
 
-/-- the C10 verdict of an evaluated case (shared with the C11 / C18 drivers, which add their own monitors). -/
-def verdictC10 (e : Eval) (tag : String) : Option Verdict :=
-  -- monitor: against a compliant server the handshake completes and application data round-trips; it may
-  -- fail only because the *server* rejected the offer
+/-- the C10 monitors on an evaluated case (shared with the C11 / C18 drivers): against a compliant server the
+handshake completes and application data round-trips; it may fail only because the *server* rejected the
+offer. -/
+def monitorC10 (e : Eval) (tag : String) : Option Verdict :=
   if !e.completed && clientOriginated e.cerr then
     some (.propFail tag s!"client-aborted-against-compliant-server:{e.cerr}")
   else if e.completed && !e.app then
     some (.propFail tag "handshake-completed-but-application-data-did-not-round-trip")
   else if !e.completed && !serverRefused e.cerr e.serr then
     some (.bad s!"cannot tell which side failed: cerr={e.cerr} serr={e.serr}")
-  else if !e.completed then
+  else none
+
+/-- the tie: `clientStep` predicts accept/abort, the alert and the negotiated parameters; the hypotheses of
+the completeness theorem hold on every real completed handshake. -/
+def tieC10 (e : Eval) (tag : String) : Option Verdict :=
+  if !e.completed then
     -- the server gave up after its ServerHello (its own local error, e.g. no signature algorithm in common
     -- with its certificate): the response is incomplete, there is nothing to predict
     none
   else match diff e with
     | some m => some (.diff tag m)
     | none =>
-      -- the hypotheses of the completeness theorem hold on every real completed handshake
       if !e.compliant then some (.diff tag "compliantB=false on a completed handshake with the in-package server")
       else if !e.ready then some (.diff tag "clientReady=false on a completed handshake")
       else none
+
+def verdictC10 (e : Eval) (tag : String) : Option Verdict :=
+  match monitorC10 e tag with
+  | some v => some v
+  | none => tieC10 e tag
 
 def hs (c : Case) : Verdict :=
   match parseCase impl c with
@@ -67,6 +76,35 @@ def hs (c : Case) : Verdict :=
     | some v => v
     | none => .ok tag
 
-def families : List (String × (Case → Verdict)) := [("c10_hs", hs)]
+/-- independent peer (OpenSSL `s_server`, thorough tier): only the client side is observable. The handshake
+completes and the echo comes back unless the server refused; what the client reports was offered by the
+recorded hello. -/
+def ossl (c : Case) : Verdict :=
+  let mode := c.input.getD "mode" "?"
+  match c.output.get "out" with
+  | some "skip" => .ok s!"skip,{c.output.getD "reason" "?"}"
+  | some o => .bad s!"harness outcome {o} {c.output.getD "msg" ""}"
+  | none =>
+  let cerr := c.output.getD "cerr" "?"
+  let app := c.output.getD "app" "0" == "1"
+  if cerr != "ok" then
+    if cerr.startsWith "ralert:" || cerr == "eof" then .ok s!"{mode},server-refused"
+    else .propFail s!"{mode},abort" s!"client-aborted-against-openssl:{cerr}"
+  else if !app then .propFail s!"{mode},no-echo" "handshake-completed-but-application-data-did-not-round-trip"
+  else
+  match (c.output.bytes "ch").bind NegotiateWire.parseOffer, (c.output.get "cstate").bind parseConn with
+  | some o, some st =>
+    let vs := if st.version == tls13 then "13" else if st.version == tls12 then "12" else "?"
+    let hrr := if c.output.getD "hrr" "0" == "1" then "+hrr" else ""
+    let tag := s!"{mode},v{vs}{hrr},accept"
+    if !o.suites.contains st.suite then .propFail tag "reported-suite-not-offered"
+    else if st.curve != 0 && !(o.shareGroups.contains st.curve || o.groups.contains st.curve) then .propFail tag "reported-curve-not-offered"
+    else if !st.alpn.isEmpty && !o.alpn.contains st.alpn then .propFail tag "reported-protocol-not-offered"
+    else if !advertised o st.version then .propFail tag "reported-version-not-advertised"
+    else if (c.output.getD "hrr" "0" == "1") != st.didHRR then .diff tag "HRR flag differs from the number of ClientHellos on the wire"
+    else .ok tag
+  | _, _ => .bad "unparsable c10_ossl line"
+
+def families : List (String × (Case → Verdict)) := [("c10_hs", hs), ("c10_ossl", ossl)]
 
 end Drv.C10
